@@ -15,7 +15,10 @@ try:
             st, rep = run_property(p, "quick", 0, root=root, write_evidence=False, quiet=True, selftest=False)
             print(p, "status", st, "deferred:", rep.deferred)
             for o in rep.failed():
-                print(f"  {o.rule} | {o.construct} | {o.what[:160]}\n     where {o.where}\n     EXP {o.expected[:700]}\n     GOT {o.found[:700]}")
+                e, g = o.expected, o.found
+                i = next((k for k in range(min(len(e), len(g))) if e[k] != g[k]), min(len(e), len(g)))
+                j = max(0, i - 200) if len(e) > 700 else 0
+                print(f"  {o.rule} | {o.construct} | {o.what[:160]}\n     where {o.where}\n     EXP[{j}:] {e[j:j+700]}\n     GOT[{j}:] {g[j:j+700]}")
         except AnalysisBroken as e:
             print(p, "BROKEN", str(e)[:600])
 finally:
